@@ -658,17 +658,208 @@ def check_dispatch(rep, prog):
                                         s.find_method('parse').cls.name not in ('Packet', 'PGPObject') for s in subs)
                 rep.check(ok, 'C08.g', c.name, 'versions %s' % [s.name for s in subs], 'a versioned packet family needs a concrete version with both codec methods',
                           where=c.where)
-    # Opaque fallback keeps the payload verbatim and is bounded by the header length
+    check_opaque(rep, prog)
+    check_dispatcher(rep, prog)
+
+
+def check_opaque(rep, prog):
+    """Opaque fallback: the payload is the next header.length octets (minus the version octet the dispatcher already consumed for a
+    versioned header), stored untransformed, and exactly those octets are consumed."""
     op = prog.cls('pgpy.packet.types', 'Opaque')
-    ps = ast.unparse(op.methods['parse'].node).replace(' ', '')
-    rep.check('pend=self.header.length' in ps and "ifhasattr(self.header,'version'):pend-=1" in ps.replace('\n', '') and 'self.payload=packet[:pend]' in ps and
-              'delpacket[:pend]' in ps, 'C08.g', 'Opaque.parse', 'payload = header.length octets (minus a version octet already read)',
-              'an unknown packet is kept verbatim and consumes exactly its own length', where=op.where)
+    pf = op.methods.get('parse')
+    if pf is None:
+        raise AnalysisError('Opaque.parse not found')
+    p0, buf = pf.params[0], pf.params[1]
+    length = '%s.header.length' % p0
+    seen = set()
+    for s in reader_paths(prog, op, pf):
+        if s.raised is not None:
+            continue
+        reads, problems = codec.reader_sequence(s, buf, cls=op)
+        versioned = _versioned_fact(s, p0)
+        seen.add(versioned)
+        want = lin_add(length, '1', -1) if versioned else length
+        body = [r for r in reads if not (r.kind == 'delegate' and (r.via or '').startswith('super:'))]
+        ok = not problems and len(body) == 1 and body[0].kind == 'fixed' and body[0].target == '%s.payload' % p0 and \
+            body[0].text == sl(buf, ('', want)) and body[0].post in (None, body[0].text) and body[0].width == want
+        rep.check(ok, 'C08.g', 'Opaque.parse', 'payload = %s' % [(r.target, r.text, r.width) for r in body],
+                  'an unknown packet is kept verbatim and consumes exactly its own length (header.length, less the version octet already read)',
+                  where=pf.where, expected='%s.payload = %s, consumed' % (p0, sl(buf, ('', want))), found=[(r.target, r.post or r.text, r.width) for r in body] + [p[1] for p in problems],
+                  scenario='versioned header' if versioned else 'plain header')
+    if False not in seen:
+        raise AnalysisError('Opaque.parse: the plain header case was not recognised')
+    if True not in seen:
+        rep.violation('C08.g', 'Opaque.parse', 'no path accounts for the version octet of a versioned header',
+                      'for a packet with a versioned header the dispatcher has already consumed the version octet: the opaque payload is header.length - 1 octets',
+                      where=pf.where, expected='a path for headers that have a version, taking %s' % lin_add(length, '1', -1), found='header.length on every path',
+                      scenario='versioned header')
+
+
+def _split_top(t, sep=', '):
+    parts, depth, cur, i = [], 0, '', 0
+    while i < len(t):
+        ch = t[i]
+        if ch in '([{':
+            depth += 1
+        elif ch in ')]}':
+            depth -= 1
+        if depth == 0 and t.startswith(sep, i):
+            parts.append(cur)
+            cur = ''
+            i += len(sep)
+            continue
+        cur += ch
+        i += 1
+    parts.append(cur)
+    return parts
+
+
+def _registry_key(x, reg):
+    """X = REG[(a, b..)] / REG.get((a, b..)) -> [a, b, ..]; None when X is not a registry lookup."""
+    for pre, post in ((reg + '[', ']'), (reg + '.get(', ')')):
+        if x.startswith(pre) and x.endswith(post):
+            inner = x[len(pre):-len(post)]
+            parts = _split_top(inner)
+            if pre.endswith('.get(') and len(parts) == 2 and parts[1] == 'None':
+                inner = parts[0]
+            if inner.startswith('(') and inner.endswith(')') and _balanced(inner[1:-1]):
+                return _split_top(inner[1:-1])
+    return None
+
+
+def _balanced(t):
+    d = 0
+    for ch in t:
+        if ch in '([{':
+            d += 1
+        elif ch in ')]}':
+            d -= 1
+            if d < 0:
+                return False
+    return d == 0
+
+
+def check_dispatcher(rep, prog):
+    """MetaDispatchable.__call__ on interpreter paths: which registry entry the object that parses the body is made from."""
     md = prog.method('pgpy.types', 'MetaDispatchable', '__call__')
-    src = ast.unparse(md.node)
-    rep.check('ncls = MetaDispatchable._registry[rcls, None]' in src.replace('(', '').replace(')', '') or 'MetaDispatchable._registry[(rcls, None)]' in src,
-              'C08.g', 'MetaDispatchable.__call__', 'Opaque fallback', 'unknown type / version falls back to the opaque class', where=md.where)
-    rep.check('raise PGPError(str(ex)) from ex' in src, 'C08.g', 'MetaDispatchable.__call__', 'parse errors wrapped', 'a malformed packet surfaces as PGPError', where=md.where)
+    if len(md.params) < 2:
+        raise AnalysisError('MetaDispatchable.__call__: no packet parameter')
+    p0, buf = md.params[0], md.params[1]
+    REG, ROOTS = 'REGISTRY', 'ROOTS'
+    sc = Scenario(inline=noinline, bind={'MetaDispatchable._registry': Sym(REG), 'MetaDispatchable._roots': Sym(ROOTS), '%s._registry' % p0: Sym(REG), '%s._roots' % p0: Sym(ROOTS)},
+                  args={buf: Sym(buf, nonnull=True)}, axioms={'(%s in %s)' % (p0, ROOTS): True})
+    outs = Interp(prog, sc).run(md)
+    keys_used, n = [], 0
+    parse_nodes = {}
+    for s in outs:
+        # lookups this path assumed to fail / succeed (a path that assumes both for one key is infeasible)
+        failed, found = set(), set()
+        ver0 = set()
+
+        def note(sk, truth):
+            if not sk:
+                return
+            if sk[0] == 'not':
+                note(sk[1], not truth)
+            elif sk[0] == 'and' and truth:
+                for x in sk[1]:
+                    note(x, True)
+            elif sk[0] == 'or' and not truth:
+                for x in sk[1]:
+                    note(x, False)
+            elif sk[0] == 'cmp':
+                op, a, b = sk[1], sk[2], sk[3]
+                if op in ('in', 'not in') and b == REG:
+                    k = tuple(_split_top(a[1:-1])) if a.startswith('(') else (a,)
+                    (found if (op == 'in') == truth else failed).add(k)
+                elif op in ('is', 'is not', '==', '!=') and 'None' in (a, b):
+                    x = a if b == 'None' else b
+                    k = _registry_key(x, REG)
+                    if k is not None:
+                        (failed if (op in ('is', '==')) == truth else found).add(tuple(k))
+                elif op == '==' and truth and a.endswith('.__ver__') and b == '0':
+                    ver0.add(a[:-len('.__ver__')])
+        for fc in s.facts:
+            note(fc[2] if len(fc) > 2 else None, fc[1])
+        if failed & found:
+            continue
+        for ft, args, kw, line, node in s.calls:
+            if ft.endswith('.parse') and args == [buf]:
+                parse_nodes.setdefault(ft[:-len('.parse')], node)
+        if s.raised is not None or s.ret is None or render(s.ret) == 'None':
+            continue
+        if any(fc[0].startswith('except ') for fc in s.facts):
+            continue                      # a handler that does not raise: reported by the wrapping rule below
+        obj = render(s.ret)
+        if not any(e[0] == 'call' and e[1] == obj + '.parse' and e[2] == [buf] for e in s.events):
+            if any(e[0] == 'call' and e[1].endswith('.parse') for e in s.events):
+                raise AnalysisError('MetaDispatchable.__call__: the returned object (%s) does not parse the body' % obj[:80])
+            continue                      # the no-packet path: a plain instance
+        m = re.match(r'^(?:object|.+)\.__new__\((.*)\)$', obj)
+        x = m.group(1) if m else (obj[:-2] if obj.endswith('()') else None)
+        if x is None:
+            raise AnalysisError('MetaDispatchable.__call__: unrecognised construction %s' % obj[:120])
+        hdr = [e[2] for e in s.events if e[0] == 'store' and e[1] == obj + '.header']
+        key = _registry_key(x, REG)
+        n += 1
+        scen = '; '.join('%s=%s' % (fc[0][:60], fc[1]) for fc in s.facts) or 'straight line'
+        form = None
+        if key is not None and key[0] == p0:
+            if len(key) == 2 and key[1] == 'None':
+                form = 'fallback'
+            elif len(key) == 2 and key[1].endswith('.typeid'):
+                form = 'type'
+            elif len(key) == 3 and key[1].endswith('.typeid') and hdr and key[2] == hdr[-1] + '.version':
+                form = 'type+version'
+        ok = form is not None and not (form != 'fallback' and tuple(key) in failed) and not (x in ver0)
+        if form:
+            keys_used.append(form)
+        rep.check(ok, 'C08.g', 'MetaDispatchable.__call__', 'object made from %s' % x[:160],
+                  'the class that parses the body is the registry entry for (root, type) or (root, type, version of the parsed header); when that '
+                  'lookup fails, or only the version-0 placeholder is known, it is the opaque entry (root, None)', where=md.where,
+                  expected='%s[(root, typeid)] / [(root, typeid, version)] / [(root, None)]' % REG, found=x[:200], scenario=scen)
+    if not n:
+        raise AnalysisError('MetaDispatchable.__call__: no dispatching path recognised')
+    rep.check('fallback' in keys_used and 'type' in keys_used and 'type+version' in keys_used, 'C08.g', 'MetaDispatchable.__call__',
+              'registry keys used: %s' % sorted(set(keys_used)), 'unknown type / version falls back to the opaque class; known ones reach their class',
+              where=md.where, expected=['fallback', 'type', 'type+version'], found=sorted(set(keys_used)))
+    # parse errors of the body (and of a re-parsed versioned header) surface as PGPError
+    parents = {}
+    for node in ast.walk(md.node):
+        for ch in ast.iter_child_nodes(node):
+            parents[id(ch)] = node
+
+    def wrapped(node):
+        cur, child = parents.get(id(node)), node
+        while cur is not None:
+            if isinstance(cur, ast.Try) and any(child is st or any(child is x for x in ast.walk(st)) for st in cur.body):
+                for h in cur.handlers:
+                    names = [dotted(h.type)] if h.type is not None and not isinstance(h.type, ast.Tuple) else \
+                        ([dotted(e) for e in h.type.elts] if h.type is not None else [None])
+                    if any(nm in (None, 'Exception', 'BaseException') for nm in names):
+                        last = h.body[-1] if h.body else None
+                        if isinstance(last, ast.Raise) and last.exc is not None:
+                            exc = last.exc
+                            if isinstance(exc, ast.Name):      # raise <local bound in the handler to the exception object>
+                                for st in h.body[:-1]:
+                                    if isinstance(st, ast.Assign) and any(isinstance(t, ast.Name) and t.id == exc.id for t in st.targets):
+                                        exc = st.value
+                            nm = dotted(exc.func) if isinstance(exc, ast.Call) else dotted(exc)
+                            ci = prog.lookup(md.module, nm) if nm else None
+                            if hasattr(ci, 'is_subclass_of') and ci.is_subclass_of('PGPError'):
+                                return True
+                        return False
+            child, cur = cur, parents.get(id(cur))
+        return False
+    guarded = 0
+    for recv, node in sorted(parse_nodes.items()):
+        if recv == '%s.__headercls__()' % p0:
+            continue                      # the first header parse of the root class
+        guarded += 1
+        rep.check(wrapped(node), 'C08.g', 'MetaDispatchable.__call__', '%s.parse(%s) not inside a handler that raises PGPError' % (recv[:100], buf),
+                  'a malformed packet surfaces as PGPError', where='%s:%d' % (md.module.relpath, node.lineno), scenario=recv[:100])
+    if guarded < 2:
+        raise AnalysisError('MetaDispatchable.__call__: body / versioned-header parse calls not recognised')
 
 
 # ------------------------------------------------------------------------------------------------ C08.h
